@@ -363,7 +363,7 @@ pub fn read_campaign(seed: u64, pairs: u64, ops_path: &str, impl_path: &str) {
                     }
                     None => {
                         writeln!(ops_out, "{}", line).unwrap();
-                        writeln!(impl_out, "unit | {} 0 0 0 1024 0", line.split(' ').nth(3).map(|h| if h == "-" { 0 } else { h.len() / 2 }).unwrap_or(0)).unwrap();
+                        writeln!(impl_out, "unit | {} 0 0 0 {} 0", line.split(' ').nth(3).map(|h| if h == "-" { 0 } else { h.len() / 2 }).unwrap_or(0), real_buf_min()).unwrap();
                     }
                 }
             }
@@ -724,7 +724,7 @@ pub fn write_campaign(seed: u64, max_runs: u64, ops_path: &str, impl_path: &str)
                     }
                     None => {
                         writeln!(ops_out, "{}", line).unwrap();
-                        writeln!(impl_out, "unit | 0 0 0 0 1024 0").unwrap();
+                        writeln!(impl_out, "unit | 0 0 0 0 {} 0", real_buf_min()).unwrap();
                     }
                 }
             }
@@ -773,4 +773,18 @@ pub fn write_campaign(seed: u64, max_runs: u64, ops_path: &str, impl_path: &str)
     println!("STAT evaluations {}", evaluations);
     std::fs::write(ops_path, ops_out).unwrap();
     std::fs::write(impl_path, impl_out).unwrap();
+}
+
+
+/// The buffer size a fresh handle really starts with when the smallest maximum is asked for (the
+/// crate's minimum, whatever the source says it is today): read off a real handle through hook H1.
+pub fn real_buf_min() -> usize {
+    static MIN: std::sync::OnceLock<usize> = std::sync::OnceLock::new();
+    *MIN.get_or_init(|| {
+        let comp = cfb::CompoundFile::create(std::io::Cursor::new(Vec::new())).unwrap();
+        let file = comp.into_inner();
+        let mut comp = OpenOptions::new().max_buffer_size(1).open_with(file).unwrap();
+        let st = comp.create_stream("/probe").unwrap();
+        st.verif_state().5
+    })
 }
